@@ -16,8 +16,57 @@ enum Case {
     Raw16 { w: u16, h: u16, px: Vec<u16> },
     Raw32 { w: u16, h: u16, bgra: Vec<u8> },
     Widen(u16),
+    /// a structured image encoded by the greedy reference encoder with a given strategy
+    Encoded { w: u16, h: u16, pattern: u8, strategy: usize },
     /// placeholder for a case owned by another worker
     Skip,
+}
+
+pub fn pattern_image(w: usize, h: usize, pattern: u8) -> Vec<u16> {
+    let mut lcg: u32 = 0x1234_5678 ^ (pattern as u32) << 8 ^ (w as u32 * 131 + h as u32);
+    let mut next = || {
+        lcg = lcg.wrapping_mul(1664525).wrapping_add(1013904223);
+        lcg >> 16
+    };
+    let mut img = vec![0u16; w * h];
+    for y in 0..h {
+        for x in 0..w {
+            let v = match pattern {
+                0 => 0,
+                1 => 0xFFFF,
+                2 => if x % 2 == 0 { 0x1234 } else { 0 },
+                3 => if y % 2 == 0 { 0xF81F } else { 0 },
+                4 => if (x + y) % 2 == 0 { 0xFFFF } else { 0 },
+                5 => ((x + y) as u16).wrapping_mul(0x0841),
+                6 => PALETTE[(next() % 3) as usize],
+                7 => next() as u16,
+                8 => if next() % 11 == 0 { 0x07E0 } else { 0 },
+                9 => ((x / 3) as u16).wrapping_mul(0x2105),
+                10 => ((x / 3) as u16).wrapping_mul(0x2105) ^ if y % 2 == 1 { 0x5555 } else { 0 },
+                11 => if x % 2 == 0 { 0xAAAA } else { 0x5555 },
+                12 => if (x / 4 + y / 2) % 2 == 0 { 0x001F } else { 0xF800 },
+                _ => if x == y { 0xFFFF } else { 0 },
+            };
+            img[y * w + x] = v;
+        }
+    }
+    img
+}
+
+pub fn strategies() -> Vec<rle::EncStrategy> {
+    let all = rle::EncStrategy { bg: true, fg: true, fgbg: true, color_run: true, dithered: true, special: true, form: 0, max_run: u32::MAX };
+    vec![
+        all,
+        rle::EncStrategy { form: 1, ..all },
+        rle::EncStrategy { form: 2, ..all },
+        rle::EncStrategy { max_run: 7, ..all },
+        rle::EncStrategy { max_run: 33, form: 2, ..all },
+        rle::EncStrategy { bg: false, fg: false, fgbg: false, dithered: false, special: false, ..all },
+        rle::EncStrategy { color_run: false, dithered: false, fgbg: false, ..all },
+        rle::EncStrategy { bg: false, fg: false, color_run: false, dithered: false, ..all },
+        rle::EncStrategy { bg: true, fg: false, fgbg: false, color_run: false, dithered: true, special: false, form: 1, max_run: 300 },
+        rle::EncStrategy { fgbg: false, special: false, max_run: 16, ..all },
+    ]
 }
 
 pub struct C09 {
@@ -287,6 +336,14 @@ impl Prop for C09 {
             let bgra: Vec<u8> = (0..n * 4).map(|i| (i * 37 + 1) as u8).collect();
             cases.push(Case::Raw32 { w: w as u16, h: h as u16, bgra });
         }
+        // structured images above the exhaustive bound, every encoder strategy
+        for (w, h) in [(4u16, 4u16), (8, 8), (17, 5), (33, 3), (1, 100), (100, 1), (64, 64), (40, 30)] {
+            for pattern in 0..14u8 {
+                for strategy in 0..strategies().len() {
+                    cases.push(Case::Encoded { w, h, pattern, strategy });
+                }
+            }
+        }
         // all 65536 colour values
         for v in 0..=0xFFFFu32 {
             cases.push(Case::Widen(v as u16));
@@ -306,11 +363,12 @@ impl Prop for C09 {
             Case::Raw16 { w, h, px } => json!({"idx": idx, "kind": "raw16", "w": w, "h": h, "pixels": px}),
             Case::Raw32 { w, h, bgra } => json!({"idx": idx, "kind": "raw32", "w": w, "h": h, "bgra_hex": hex(&bgra[..bgra.len().min(64)])}),
             Case::Widen(v) => json!({"idx": idx, "kind": "widen565", "value": v}),
+            Case::Encoded { w, h, pattern, strategy } => json!({"idx": idx, "kind": "rle16-encoded", "w": w, "h": h, "pattern": pattern, "strategy": strategies()[*strategy]}),
             Case::Skip => json!({"idx": idx, "kind": "not-materialised"}),
         }
     }
     fn rule(&self) -> String {
-        "cases are encodings. [rle16] every sequence of <=3 (<=4 thorough) interleaved-RLE orders over {all 12 order kinds} x {short, extended, mega-mega forms} x {every run length that fits} x palette {0,0xFFFF,0x1234} that the reference decoder maps onto a complete image of the shape (shapes up to 6 px; larger shapes with <=2 orders to reach extended forms / special orders); [planar32] every plane vector over {0,1,7F,80,FF} for shapes up to 2x2/4x1 x every segmentation of every scan line (one line varied at a time, plus all together), and wide lines for the long-run escapes; [raw16]/[raw32] bottom-up uncompressed layouts; [widen565] all 65536 colours. Non-trivial: >=2 orders or a non-default segmentation or >=2 rows.".into()
+        "cases are encodings. [rle16] every sequence of <=3 (<=4 thorough) interleaved-RLE orders over {all 12 order kinds} x {short, extended, mega-mega forms} x {every run length that fits} x palette {0,0xFFFF,0x1234} that the reference decoder maps onto a complete image of the shape (shapes up to 6 px; larger shapes with <=2 orders to reach extended forms / special orders); [planar32] every plane vector over {0,1,7F,80,FF} for shapes up to 2x2/4x1 x every segmentation of every scan line (one line varied at a time, plus all together), and wide lines for the long-run escapes; [rle16-encoded] 14 structured image patterns x 8 sizes up to 64x64 x 10 deterministic strategies of a greedy reference encoder (order kinds allowed, preferred spelling, run-length cap); [raw16]/[raw32] bottom-up uncompressed layouts; [widen565] all 65536 colours. Non-trivial: >=2 orders or a non-default segmentation or >=2 rows.".into()
     }
     fn assumptions(&self) -> Vec<String> {
         vec![
@@ -328,6 +386,7 @@ impl Prop for C09 {
                 Case::Raw16 { .. } => "raw16",
                 Case::Raw32 { .. } => "raw32",
                 Case::Widen(_) => "widen565",
+                Case::Encoded { .. } => "rle16-encoded",
                 Case::Skip => "skip",
             };
             *counts.entry(k).or_insert(0u64) += 1;
@@ -360,6 +419,17 @@ impl Prop for C09 {
             Case::Raw16 { w, h, px } => (w, h, 16, false, rle::raw16(&px, w as usize, h as usize), rle::image16_to_bgra(&px), h > 1, format!("raw16-w{}", w % 2)),
             Case::Raw32 { w, h, bgra } => (w, h, 32, false, rle::raw32(&bgra, w as usize, h as usize), bgra, h > 1, "raw32".into()),
             Case::Widen(v) => (1, 1, 16, false, rle::raw16(&[v], 1, 1), rle::widen565(v).to_vec(), true, "widen565".into()),
+            Case::Encoded { w, h, pattern, strategy } => {
+                let img = pattern_image(w as usize, h as usize, pattern);
+                let orders = rle::encode16(&img, w as usize, h as usize, &strategies()[strategy]);
+                let data = rle::emit_all(&orders);
+                match rle::decode16(&data, w as usize, h as usize) {
+                    Decoded::Image(i) if i == img => {}
+                    other => return Outcome::fail("machinery", "machinery", format!("the reference encoder and decoder disagree on pattern {} {}x{} strategy {}: {:?}", pattern, w, h, strategy, matches!(other, Decoded::Image(_)))),
+                }
+                let kinds: std::collections::BTreeSet<String> = orders.iter().map(|o| format!("{:?}", o.kind)).collect();
+                (w, h, 16, true, data, rle::image16_to_bgra(&img), true, format!("rle16-encoded-{}", kinds.into_iter().collect::<Vec<_>>().join("+")))
+            }
             Case::Skip => panic!("VERIF: case of another shard executed"),
         };
         let ev = BitmapEvent { dest_left: 0, dest_top: 0, dest_right: w - 1, dest_bottom: h - 1, width: w, height: h, bpp, is_compress: compress, data };
